@@ -2,4 +2,4 @@ From Coq Require Import Extraction ExtrOcamlBasic.
 From PV Require Import Base.IO GPU.GPUDefs.
 Extraction Language OCaml.
 (* coqc runs from coq/ (coq_makefile), so the path is relative to it *)
-Extraction "extracted/gpu.ml" io_witness grun prun ref_run final_host init_state run_task.
+Extraction "extracted/gpu.ml" io_witness grun prun prun_s ref_run final_host init_state run_task.
